@@ -9,9 +9,10 @@ LEAN_TARGETS = ['Props.C19']
 REQUIRED_THEOREMS = ['Props.C19.randomsites_seeded', 'Props.C19.draws_seeded', 'Props.C19.seeded_noninterference']
 RULE = ('(a) draw signatures: every random-consuming API (rand/randn/normal/randint, nn.init, Linear/Conv constructors, Dropout, '
         'shuffled split) is called with np.random.* wrapped and the (function, count) sequence must equal the model; '
-        '(b) seeded programs (random tensors, layers with init, dropout, shuffled split, 3 SGD/Adam steps) are hashed '
-        '(tensors, gradients, parameters, bit patterns) twice in-process and in fresh processes under 3 (quick) / 12 (thorough) '
-        'PYTHONHASHSEED values; all hashes must be identical; (c) a fixed program repeated 3 times gives identical results. '
+        '(b) seeded programs (random tensors, layers with init, dropout, shuffled split, 3 SGD/Adam steps, an integer fan-out graph and a '
+        'float32 fan-out graph whose six-fold accumulation order shows in the last bits) are hashed (tensors, gradients, parameters, '
+        'bit patterns) 8 times in-process with different amounts of live garbage in between (so addresses differ) and in fresh '
+        'processes under 3 (quick) / 12 (thorough) PYTHONHASHSEED values and allocation preludes; all hashes must be identical. '
         'Non-trivial: a program that draws from >= 3 different APIs and trains.')
 EXHAUSTIVE = {'quick': False, 'thorough': False}
 ASSUMPTIONS = ['NumPy generators and BLAS are deterministic given the same state and inputs (not modelled)']
@@ -96,7 +97,7 @@ import warnings; warnings.simplefilter('ignore')
 import synapgrad as sg
 from synapgrad import nn, optim
 from synapgrad.nn.utils.data import split_dataset
-def program(seed, variant):
+def program(seed, variant, layout=0):
     h = hashlib.sha256()
     def add(a): h.update(np.ascontiguousarray(a).tobytes()); h.update(str(a.shape).encode()); h.update(str(a.dtype).encode())
     sg.manual_seed(seed)
@@ -126,20 +127,33 @@ def program(seed, variant):
     parts = [a * a, a + a, a * 2.0, a.sum(0), a.mean()]
     z = (parts[0] * parts[1] + parts[2]).sum() + parts[3].sum() * parts[4]
     z.backward(); add(a.grad.data)
+    # float32 fan-out through asymmetric paths: five or more contributions of very different magnitude reach x, so the
+    # accumulation ORDER shows in the last bits; `junk` objects allocated in between move the tensors around in memory,
+    # so an order that depends on addresses / hashes / id() differs between repetitions
+    junk = [sg.Tensor(np.zeros(1)) for _ in range(layout)]
+    x = sg.Tensor((np.random.rand(7).astype(np.float32) * 3 + 0.1), requires_grad=True)
+    w = [sg.Tensor(np.float32(10.0 ** (k - 3)) * np.random.rand(7).astype(np.float32), requires_grad=True) for k in range(6)]
+    del junk[::2]
+    t1 = x * w[0] + (x * w[1]).exp()
+    t2 = (t1 + x * w[2]) * (x + w[3])
+    t3 = t2 + x.sqrt() * w[4] + (x * x) * w[5] + x
+    z = (t3 * t3).sum() + (x * t1).sum()
+    z.backward(); add(x.grad.data)
+    for k in range(6): add(w[k].grad.data)
     return h.hexdigest()
 '''
 
 
-def _prog_inprocess(seed, variant):
+def _prog_inprocess(seed, variant, layout=0):
     ns = {'STUBS': os.path.join(common.VERIF, 'harness', 'stubs'), 'REPO': common.REPO}
     common.impl()
     exec(PROGRAM, ns)
     with common.quiet():
-        return ns['program'](seed, variant)
+        return ns['program'](seed, variant, layout)
 
 
 def _prog_subprocess(seed, variant, hashseed):
-    code = f"STUBS={os.path.join(common.VERIF, 'harness', 'stubs')!r}\nREPO={common.REPO!r}\n" + PROGRAM + f"\nprint(program({seed}, {variant}))\n"
+    code = f"STUBS={os.path.join(common.VERIF, 'harness', 'stubs')!r}\nREPO={common.REPO!r}\n" + PROGRAM + f"\nprint(program({seed}, {variant}, {hashseed % 13}))\n"
     env = dict(os.environ, PYTHONHASHSEED=str(hashseed))
     p = subprocess.run([sys.executable, '-c', code], capture_output=True, text=True, env=env, timeout=300)
     if p.returncode != 0:
@@ -147,9 +161,18 @@ def _prog_subprocess(seed, variant, hashseed):
     return p.stdout.strip().split('\n')[-1]
 
 
+NREP = 8
+
+
 def _hashes(c):
-    hs = [_prog_inprocess(c['seed'], c['variant']) for _ in range(3)]
-    hs += [_prog_subprocess(c['seed'], c['variant'], 1 + 7919 * k) for k in range(c['hashseeds'])]
+    keep = []
+    hs = []
+    for k in range(NREP):
+        hs.append(_prog_inprocess(c['seed'], c['variant'], (5 * k) % 17))
+        keep.append([object() for _ in range(37 * k)])      # shifts later allocations
+    from concurrent.futures import ThreadPoolExecutor
+    with ThreadPoolExecutor(max_workers=min(16, os.cpu_count() or 4)) as ex:
+        hs += list(ex.map(lambda k: _prog_subprocess(c['seed'], c['variant'], 1 + 7919 * k), range(c['hashseeds'])))
     return hs
 
 
@@ -200,7 +223,7 @@ def oracle(c):
     if hs == 'rejected' or any(str(h).startswith('rejected') for h in hs):
         return {'key': {'cls': 'program-raises'}, 'case': cc, 'what': f'seeded program raised: {hs}'}
     if len(set(hs)) != 1:
-        inproc = len(set(hs[:3])) != 1
+        inproc = len(set(hs[:NREP])) != 1
         return {'key': {'cls': 'in-process' if inproc else 'across-processes'}, 'case': cc,
                 'what': f'the same seeded program produced different bit patterns ({"repeated in one process" if inproc else "in fresh processes under different PYTHONHASHSEED"}): {hs}'}
     return None
